@@ -17,11 +17,12 @@ ACCOUNTS = ['a', 'b']
 CFGS = {
     'q':  ('MC_AdminOp_q.cfg',  [1, 1, 1, -1]),
     'q3': ('MC_AdminOp_q3.cfg', [1, 1, 1, -1]),
-    'g2': ('MC_AdminOp_g2.cfg', [1, 1, 2, 0]),
+    'g2': ('MC_AdminOp_g2.cfg', [2, 1, 2, 0]),
     'm2': ('MC_AdminOp_m2.cfg', [1, 1, 2, 0]),
     'w2': ('MC_AdminOp_w2.cfg', [3, 1, 1, 1]),
     't111x': ('MC_AdminOp_t111x.cfg', [1, 1, 1, -1]),
     't1120': ('MC_AdminOp_t1120.cfg', [1, 1, 2, 0]),
+    't2120': ('MC_AdminOp_t2120.cfg', [2, 1, 2, 0]),
     't3111': ('MC_AdminOp_t3111.cfg', [3, 1, 1, 1]),
     't1111': ('MC_AdminOp_t1111.cfg', [1, 1, 1, 1]),
 }
@@ -156,9 +157,9 @@ def run(ctx, replay=None):
 
     quick = ctx.tier == 'quick'
     workers = 4
-    exhaustive = ['q', 'g2', 't1120'] if quick else ['q', 'q3', 'g2', 't111x', 't1120', 't3111', 't1111', 'm2', 'w2']
-    graph_cfgs = {'q': 14, 'g2': 14, 't1120': 400} if quick else \
-                 {'q': 14, 'q3': 16, 'g2': 14, 't111x': 400, 't1120': 400, 't3111': 400, 't1111': 400}
+    exhaustive = ['q', 'g2', 't2120'] if quick else ['q', 'q3', 'g2', 't111x', 't1120', 't2120', 't3111', 't1111', 'm2', 'w2']
+    graph_cfgs = {'q': 14, 'g2': 14, 't2120': 400} if quick else \
+                 {'q': 14, 'q3': 16, 'g2': 14, 't111x': 400, 't1120': 400, 't2120': 400, 't3111': 400, 't1111': 400}
     max_paths = {'q': 1500, 'g2': 900} if quick else {'q3': 7000}
     walks = {'q': 300, 'g2': 300} if quick else {'q3': 2500, 'g2': 800}
     old_cfgs = ['oldDup'] if quick else list(OLD)
